@@ -1,5 +1,14 @@
 import Morlock.Driver.Score
 import Morlock.Driver.Chess
+import Morlock.Driver.Game
+open Morlock.Driver in
+def dispatchPure (toks : List String) : String :=
+  match toks with
+  | "score" :: args => scoreOp args
+  | "chess" :: args => chessOp args
+  | "published" :: _ => "ok ## ok"   -- the harness compared the implementation with a published constant
+  | _ => "bad-op"
+
 /-!
 # mldriver — runs the Lean model (and reference semantics) on the harness' op lines
 
@@ -7,21 +16,24 @@ One op per input line, one canonical output line `model[ ## spec]`.
 -/
 open Morlock.Driver
 
-def dispatch (line : String) : String :=
+def dispatch (st : DriverState) (line : String) : DriverState × String :=
   match splitSp line with
-  | "score" :: args => scoreOp args
-  | "chess" :: args => chessOp args
-  | "published" :: _ => "ok ## ok"   -- the harness compared the implementation with a published constant
-  | _ => "bad-op"
+  | "ztable" :: args =>
+    match parseZTable args with
+    | some e => ({ st with ztables := e :: st.ztables }, "ok")
+    | none => (st, "bad-ztable")
+  | "game" :: args => (st, gameOp st args)
+  | other => (st, dispatchPure other)
 
-partial def loop (h : IO.FS.Stream) (out : IO.FS.Stream) : IO Unit := do
+partial def loop (h : IO.FS.Stream) (out : IO.FS.Stream) (st : DriverState) : IO Unit := do
   let line ← h.getLine
   if line.isEmpty then return ()
-  let l := if line.back == '\n' then line.dropRight 1 else line
-  out.putStrLn (dispatch l)
-  loop h out
+  let l := if line.back == '\n' then (line.dropEnd 1).toString else line
+  let (st', res) := dispatch st l
+  out.putStrLn res
+  loop h out st'
 
 def main : IO Unit := do
   let stdin ← IO.getStdin
   let stdout ← IO.getStdout
-  loop stdin stdout
+  loop stdin stdout {}
